@@ -34,6 +34,10 @@ impl<K: Hash + Eq, V> Builder<K, V> {
             map::Entry::Occupied(ent) => Entry::Occupied(OccupiedEntry { ent }),
         }
     }
+
+    pub fn contains_key(&self, key: &K) -> bool {
+        self.map.contains_key(key)
+    }
 }
 
 impl<K: Hash + Eq, V> IntoIterator for Builder<K, V> {
